@@ -393,7 +393,7 @@ __CPROVER_ensures(rhs->mem.sz == self->base.row_ ==> gv_exc == 0)
 GV_CANARY("CovMat_solve entry");
 const Index gv_dim = self->base.row_;
 //@ loop CovMat_solve 1
-__CPROVER_assigns(i, j, s; rhs->mem.sz > 0: __CPROVER_object_whole(rhs->mem.rep))
+__CPROVER_assigns(i, j, s, __CPROVER_object_whole(rhs->mem.rep))
 __CPROVER_loop_invariant(2 <= i && i <= GV_MAX(gv_dim, 1) + 1)
 __CPROVER_decreases((long)gv_dim + 1 - i)
 //@ loop CovMat_solve 2
@@ -401,13 +401,13 @@ __CPROVER_assigns(j, s)
 __CPROVER_loop_invariant(1 <= j && j <= i)
 __CPROVER_decreases((long)i - j)
 //@ loop CovMat_solve 3
-__CPROVER_assigns(i; rhs->mem.sz > 0: __CPROVER_object_whole(rhs->mem.rep))
+__CPROVER_assigns(i, __CPROVER_object_whole(rhs->mem.rep))
 __CPROVER_loop_invariant(1 <= i && i <= gv_dim + 1)
 __CPROVER_decreases((long)gv_dim + 1 - i)
 //@ head CovMat_solve 3
 CVP_USE_STEP(gv_dim, self->band_, i);
 //@ loop CovMat_solve 4
-__CPROVER_assigns(i, k, m, s; rhs->mem.sz > 0: __CPROVER_object_whole(rhs->mem.rep))
+__CPROVER_assigns(i, k, m, s, __CPROVER_object_whole(rhs->mem.rep))
 __CPROVER_loop_invariant(-1 <= i && i <= gv_dim - 1)
 __CPROVER_decreases((long)i)
 //@ head CovMat_solve 4
